@@ -475,7 +475,26 @@ def pd_DataFrame(I, data=None, index=None, columns=None, **kw):
                 raise Unsupported(f'frame from a row with an unknown field {k}: {v.why}')
         lab = r.label()
         return DF(1, Arr(1, lambda i, lab=lab: lab), {k: Arr(1, lambda i, v=v: v) for k, v in vals.items()})
+    if data is None and isinstance(index, Arr) and not columns:
+        # pd.DataFrame(index=labels): no column yet, one row per label
+        d = DF(index.n, index, {})
+        return d
     raise Unsupported('DataFrame(...) form')
+
+
+def pd_DataFrame_from_dict(I, data, orient='columns', **kw):
+    """pd.DataFrame.from_dict(d, orient='index') of a dictionary with literal keys and scalar values: one row per key (label = key),
+    a single column labelled 0"""
+    if orient != 'index' or kw:
+        raise Unsupported('DataFrame.from_dict form')
+    items = list(data.items) if isinstance(data, SymMap) else (list(data.items()) if isinstance(data, dict) else None)
+    if items is None or any(not isinstance(k, str) for k, _ in items) or any(isinstance(v, (Arr, Mat, DF, dict, list, tuple, SymMap, Havoc)) for _, v in items):
+        raise Unsupported('DataFrame.from_dict of this dictionary')
+    seen = {}
+    for k, v in items:
+        seen[k] = v
+    keys = list(seen)
+    return DF(len(keys), sym.arr_from_list(keys), {0: sym.arr_from_list([seen[k] for k in keys])})
 
 
 def pd_concat(I, parts, **kw):
@@ -556,7 +575,7 @@ def pd_merge(I, *a, **kw):
 
 
 PD = ModelNS('pandas', dict(
-    Timedelta=pd_Timedelta, Timestamp=TypeTok('Timestamp'), DataFrame=TypeTok('DataFrame'), concat=pd_concat,
+    Timedelta=pd_Timedelta, Timestamp=TypeTok('Timestamp'), DataFrame=TypeTok('DataFrame', attrs=dict(from_dict=pd_DataFrame_from_dict)), concat=pd_concat,
     date_range=pd_date_range, to_datetime=pd_to_datetime, merge=pd_merge, Series=TypeTok('Series'),
     DatetimeIndex=TypeTok('DatetimeIndex'),
 ))
@@ -920,6 +939,13 @@ def deepcopy_(I, v):
 
 
 # ----------------------------------------------------------------------------- name resolution
+class RepoModule:
+    """`from eaopack import <module>`: only its classes are reachable (as type tokens for isinstance / constructors)"""
+
+    def __init__(self, name):
+        self.name = name
+
+
 def global_name(I, mod, name):
     """module-level names of a repo module: import aliases resolve to model namespaces"""
     tree = I.repo.modules[mod][0]
@@ -942,6 +968,8 @@ def global_name(I, mod, name):
                     for (m, n), fn in I.repo.functions.items():
                         if n == al.name and node.module and node.module.endswith(m):
                             return RepoFunc(m, fn)
+                    if node.module in ('eaopack', None) and al.name in I.repo.modules:
+                        return RepoModule(al.name)
                     if node.module == 'typing':
                         return TypeTok(al.name.lower() if al.name in ('Dict', 'List') else al.name)
                     raise Unsupported('from-import ' + full)
@@ -1046,6 +1074,8 @@ def value_attr(I, o, attr):
             return TS(z3.Int('Timestamp.max'), None)
         if attr == '__name__':
             return o.name
+        if attr in getattr(o, 'attrs', {}):
+            return o.attrs[attr]
         raise Unsupported(f'{o.name}.{attr}')
     if isinstance(o, RepStr):
         raise Unsupported('RepStr.' + attr)
@@ -1310,12 +1340,55 @@ class _ILoc:
         return Row(df, k)
 
 
+def label_position(I, index, label):
+    """position of `label` in a pandas index with pairwise different labels.  Supported: the label was read from the same index
+    (index[k] for an in-range k, syntactically) -- then the position is k; the uniqueness of the labels is an obligation (pandas would
+    address several rows otherwise).  Literal labels in a literal index are looked up directly."""
+    n = index.n
+    cn = concrete_int(n)
+    if isinstance(label, str) and cn is not None:
+        labs = [index.f(k) for k in range(cn)]
+        if all(isinstance(x, str) for x in labs):
+            if labs.count(label) != 1:
+                raise PyRaise('KeyError', label) if label not in labs else Unsupported('duplicate literal label')
+            return labs.index(label)
+    if isinstance(label, TS):
+        probe = z3.Int('probe!label')
+        pt = index.f(probe)
+        if isinstance(pt, TS) and is_z3(pt.t) and is_z3(label.t) and pt.t.num_args() == 1 and label.t.num_args() == 1 and \
+                pt.t.decl().eq(label.t.decl()) and pt.t.arg(0).eq(probe):
+            k = label.t.arg(0)
+            i, j = z3.Ints('lab!i lab!j')
+            fi, fj = index.f(i).t, index.f(j).t
+            I.require('label-unique', z3.ForAll([i, j], z3.Implies(z3.And(i >= 0, i < j, j < lift(n)), fi != fj),
+                                                patterns=[z3.MultiPattern(fi, fj)]), kind='shape')
+            return I.bounds_check(k, n, 'loc[label]')
+    raise Unsupported('loc[label]: label not recognisably taken from the index')
+
+
 class _Loc:
     def __init__(self, df):
         self.df = df
 
+    def cell(self, I, idx):
+        """(column array, position) addressed by loc[row label, literal column label], or None"""
+        df = self.df
+        if isinstance(idx, tuple) and len(idx) == 2 and isinstance(idx[1], str) and isinstance(idx[0], (TS, str)) and \
+                isinstance(df.cols.get(idx[1]), Arr):
+            _df_frame(I, df, 'loc[...] +=')
+            return df.cols[idx[1]], label_position(I, df.index, idx[0])
+        return None
+
     def getitem(self, I, idx, what):
         df = self.df
+        if isinstance(idx, tuple) and len(idx) == 2 and isinstance(idx[1], str) and isinstance(idx[0], (TS, str)):
+            if idx[1] not in df.cols:
+                raise PyRaise('KeyError', idx[1])
+            k = label_position(I, df.index, idx[0])
+            col = df.cols[idx[1]]
+            if isinstance(col, Havoc):
+                return col
+            return col.f(k)
         if isinstance(idx, tuple) and len(idx) == 2 and isinstance(idx[1], slice) and idx[1].start is None:
             idx = idx[0]
         if isinstance(idx, tuple) and len(idx) == 2 and isinstance(idx[1], str):
@@ -1329,6 +1402,25 @@ class _Loc:
 
     def setitem(self, I, idx, v):
         df = self.df
+        _df_frame(I, df, 'loc[...] =')
+        if isinstance(idx, tuple) and len(idx) == 2 and isinstance(idx[1], str) and isinstance(idx[0], (TS, str)) and idx[1] in df.cols \
+                and isinstance(df.cols[idx[1]], Arr):
+            k = label_position(I, df.index, idx[0])
+            I.arr_set(df.cols[idx[1]], k, v, f'loc[label,{idx[1]}]')
+            return
+        if isinstance(idx, tuple) and len(idx) == 2 and isinstance(idx[1], str) and isinstance(idx[0], slice) and \
+                idx[0].start is None and idx[0].stop is None and idx[0].step is None and isinstance(v, Arr) and idx[1] in df.cols:
+            # df.loc[:, col] = array : the whole column (lengths must agree)
+            I.require(f'column-length:{idx[1]}', cmpop('Eq', df.n, v.n), kind='shape')
+            df.cols[idx[1]] = Arr(v.n, v.f)
+            return
+        if isinstance(idx, tuple) and len(idx) == 2 and isinstance(idx[0], TS) and is_z3(idx[1]):
+            # df.loc[label, computed column label] = v : scattered cell of a column addressed by a computed name
+            k = label_position(I, df.index, idx[0])
+            if getattr(df, 'keyed', None) is None:
+                df.keyed = KeyedCells()
+            df.keyed.write(I, k, idx[1], v)
+            return
         if isinstance(idx, tuple) and len(idx) == 2 and isinstance(idx[0], Arr) and isinstance(idx[1], str):
             mask, name = idx
             if name not in df.cols:
@@ -1348,6 +1440,62 @@ class _Loc:
             df.n = df.index.n
             return
         raise Unsupported('loc store form')
+
+
+def _concat_cancel_axiom():
+    """a + b == a + c  =>  b == c  for strings (left cancellation); registered once per path"""
+    a, b, c = z3.Consts('cc!a cc!b cc!c', sym.Str)
+    ax = z3.ForAll([a, b, c], z3.Implies(sym.str_concat(a, b) == sym.str_concat(a, c), b == c),
+                   patterns=[z3.MultiPattern(sym.str_concat(a, b), sym.str_concat(a, c))])
+    if not any(x.eq(ax) for x in sym.EXTRA):
+        sym.EXTRA.append(ax)
+
+
+class KeyedCells:
+    """cells of a frame written as df.loc[row label, computed column label] = value (the nodal price table).  A cell that was never
+    written is NaN (pandas creates the column with NaN when the label is new); a later write to the same (row, label) wins.
+    Writes inside ONE symbolic loop are kept as a family  k -> (row(k), label(k), value(k)) over the loop's domain."""
+
+    def __init__(self):
+        self.writes = []        # ('one', row, key, val) | ('family', var, dom, row, key, val)
+
+    def write(self, I, row, key, val):
+        if isinstance(val, (Arr, Mat, DF, Havoc, dict, list, tuple)):
+            raise Unsupported('keyed cell value')
+        if I.guards and not I.loops:
+            raise Unsupported('keyed cell store under a symbolic guard')
+        if not I.loops:
+            self.writes.append(('one', row, key, val))
+            return
+        if len(I.loops) != 1:
+            raise Unsupported('keyed cell store in nested symbolic loops')
+        lc = I.loops[0]
+        self.writes.append(('family', lc.var, I.guard_formula(), row, key, val))
+
+    def read(self, row, key):
+        """optional value (None-able) at (row, key): the value of the last write addressing the cell.  For a family the LAST index with
+        that address is characterised by a fresh witness: cell is set iff some index addresses it; the value is the one of an index
+        addressing it after which no later index does."""
+        out = None          # never written: NaN
+        for w in self.writes:
+            if w[0] == 'one':
+                _, r, k, v = w
+                out = sym.ite(z3.And(lift(r) == lift(row), k == key), v, out)
+            else:
+                _, var, dom, r, k, v = w
+                hit = lambda kk: z3.And(z3.substitute(dom, (var, kk)), z3.substitute(lift(r), (var, kk)) == lift(row),
+                                        z3.substitute(k, (var, kk)) == key)
+                j = z3.Int(sym.fresh_name('cellw'))
+                j2 = z3.Int(sym.fresh_name('cellw2'))
+                some = z3.Exists([j2], hit(j2))
+                # witness: the last index addressing the cell
+                sym.EXTRA.append(z3.Implies(some, z3.And(hit(j), z3.ForAll([j2], z3.Implies(hit(j2), j2 <= j)))))
+                _concat_cancel_axiom()
+                vj = v
+                if is_z3(vj):
+                    vj = z3.substitute(vj, (var, j))
+                out = sym.ite(some, vj, out)
+        return out
 
 
 class SymRows:
@@ -1500,6 +1648,10 @@ _old_value_attr = value_attr
 
 
 def value_attr(I, o, attr):      # noqa: F811  (extends the dispatcher above)
+    if isinstance(o, RepoModule):
+        if attr in I.repo.classes:
+            return RepoClass(attr)
+        raise Unsupported(f'module attribute {o.name}.{attr}')
     if isinstance(o, Columns):
         return _columns_attr(I, o, attr)
     if isinstance(o, SegColumn):
